@@ -92,6 +92,48 @@ fn grad(kind: &str, x: f64, p: &[f64]) -> Vec<f64> {
     }
 }
 
+// control-flow trace of a Levenberg-Marquardt run: the closure calls grouped into blocks of n = xs.len() consecutive
+// calls of one kind (model "f" / Jacobian "j"); a block keeps the parameter vector of its first call, whether all its
+// calls had that same vector, and the model values
+struct LmBlock {
+    kind: u8,
+    params: Vec<f64>,
+    same: bool,
+    values: Vec<f64>,
+    count: usize,
+}
+thread_local! {
+    static LM_ON: RefCell<usize> = const { RefCell::new(0) };          // 0 = off, else block length n
+    static LM_LOG: RefCell<Vec<LmBlock>> = const { RefCell::new(Vec::new()) };
+}
+fn lm_log(kind: u8, p: &[f64], y: f64) {
+    let n = LM_ON.with(|o| *o.borrow());
+    if n == 0 {
+        return;
+    }
+    LM_LOG.with(|l| {
+        let mut l = l.borrow_mut();
+        let fresh = match l.last() {
+            Some(b) => b.kind != kind || b.count >= n,
+            None => true,
+        };
+        if fresh {
+            if l.len() >= 800 {
+                return;
+            }
+            l.push(LmBlock { kind, params: p.to_vec(), same: true, values: vec![], count: 0 });
+        }
+        let b = l.last_mut().unwrap();
+        if b.params.iter().zip(p.iter()).any(|(a, c)| a.to_bits() != c.to_bits()) {
+            b.same = false;
+        }
+        b.count += 1;
+        if kind == 0 {
+            b.values.push(y);
+        }
+    });
+}
+
 macro_rules! fit_impl {
     ($name:ident, $m:path) => {
         fn $name<const V: usize>(case: &Value, calls: &RefCell<usize>, budget: usize) -> Result<Vec<f64>, String> {
@@ -112,10 +154,15 @@ macro_rules! fit_impl {
                 if *calls.borrow() > budget {
                     panic!("budget");
                 }
-                model(&kind, x, p.as_slice())
+                let y = model(&kind, x, p.as_slice());
+                lm_log(0, p.as_slice(), y);
+                y
             };
             let r = if case["variant"] == "jac" {
-                let j = |x: f64, p: &SVector<f64, V>| SVector::<f64, V>::from_column_slice(&grad(&k2, x, p.as_slice()));
+                let j = |x: f64, p: &SVector<f64, V>| {
+                    lm_log(1, p.as_slice(), 0.0);
+                    SVector::<f64, V>::from_column_slice(&grad(&k2, x, p.as_slice()))
+                };
                 opt::curve_fit_jac::<f64, _, _, V>(f, &xs, &ys, &init, j, &params)
             } else {
                 opt::curve_fit::<f64, _, V>(f, &xs, &ys, &init, &params)
@@ -184,7 +231,20 @@ pub fn run_fit(args: &[String]) {
             out.put(o);
             continue;
         }
+        // control-flow trace of the analytic-Jacobian variant (blocks of n closure calls)
+        let trace = case["variant"] == "jac" && case["xs"].as_array().map(|a| a.len()).unwrap_or(0) > 0;
+        LM_LOG.with(|l| l.borrow_mut().clear());
+        LM_ON.with(|o| *o.borrow_mut() = if trace { case["xs"].as_array().unwrap().len() } else { 0 });
         let (st, p, n) = lm_run(&case, false);
+        LM_ON.with(|o| *o.borrow_mut() = 0);
+        o["blocks"] = LM_LOG.with(|l| {
+            Value::Array(
+                l.borrow()
+                    .iter()
+                    .map(|b| json!({"k": if b.kind == 0 { "f" } else { "j" }, "p": fvj(&b.params), "same": b.same, "n": b.count, "v": fvj(&b.values)}))
+                    .collect(),
+            )
+        });
         o["st"] = json!(st);
         o["params"] = fvj(&p);
         o["calls"] = json!(n);
